@@ -56,6 +56,10 @@ def check(model: Model, rep: Report, tier: str):
         share_rule(rep, model, _r13, "C11.F10", "a nested block reports the channels of all its operations, a flattened circuit asks each operation itself: both give the same implicit "
                    "predecessor only if the block's de-duplicated channel listing loses nothing -- ChannelIdentifier's hash separates the channels of a qubit and the helper de-duplicates "
                    "through a hash container (= C01.R13)")
+    from .c04 import duration_rule as _d
+    with rep.isolated():
+        share_rule(rep, model, _d, "C11.F12", "what follows a nested block starts at the block's reported end; after flattening it follows the block's last operation itself: both "
+                   "agree only if the block's duration is latest end minus earliest start over all its operations (= C04.D1/D2)")
     from .c01 import r5
     with rep.isolated():
         share_rule(rep, model, r5, "C11.F6", "an operation that pointed at a dissolved sub-circuit is re-linked behind the LATEST node sharing one of its channels -- the leaf query "
